@@ -52,6 +52,20 @@ def step (st : St) (cmd : String) (m : KV) : Option (St × String) :=
     let (frames, e) := DG.swrite u st.max (List.replicate n 0)
     let es := match e with | .ok => "ok" | .errShortBuffer => "short-buffer" | .outOfFuel => "out-of-fuel"
     pure (st, s!"frames={showNats (frames.map List.length)} err={es}")
+  | "dg.entry" => do
+    -- client.RouteUDP: a datagram of n bytes on the local UDP socket
+    let n ← getNat m "n"
+    let (frames, e) := DG.udpEntry st.max (List.replicate n 0)
+    let es := match e with | .ok => "ok" | .errShortBuffer => "short-buffer" | .outOfFuel => "out-of-fuel"
+    pure (st, s!"frames={showNats (frames.map List.length)} err={es}")
+  | "dg.sreadfrom" => do
+    -- Stream.ReadFrom on an unordered stream: packet source holding one datagram / byte source holding n bytes
+    let pkt ← getBool m "pkt"
+    let n ← getNat m "n"
+    let (frames, e) := if pkt then DG.readFromPkt true st.max (List.replicate n 0)
+                       else DG.readFromStream true st.max (List.replicate n 0)
+    let es := match e with | .ok => "0" | .errShortBuffer => "1" | .outOfFuel => "out-of-fuel"
+    pure (st, s!"frames={showNats (frames.map List.length)} refused={es}")
   | "dg.sdeliver" => do
     let sid ← getNat m "sid"
     let c ← getNat m "closing"
